@@ -462,3 +462,73 @@ Lemma greenland_gradient_is_derivative_lemma : forall s z,
 Proof.
   intros s z. rewrite gre_gradient. unfold vx, vy, vz; simpl. split; [reflexivity|]. split; [reflexivity|]. apply profile_derive.
  Qed.
+
+(* ---------------------------------------------------------------- layered ice: the dispatch is total *)
+(* in a connected stack every depth between the bottom edge (inclusive) and the top edge
+   (inclusive) lies in some layer's half-open interval, or is exactly the bottom edge *)
+Lemma connected_cover : forall ls l0 z, connected (l0 :: ls) ->
+  l_lo (last ls l0) < z <= l_hi l0 -> exists l, In l (l0 :: ls) /\ l_lo l < z <= l_hi l.
+Proof.
+  induction ls as [|l1 r IH]; intros l0 z Hc Hz.
+  - simpl in Hz. exists l0. split; [left; reflexivity | exact Hz].
+  - simpl in Hc. destruct Hc as (H0 & H01 & Hc1).
+    destruct (Rlt_le_dec (l_lo l0) z) as [Hin|Hout].
+    + exists l0. split; [left; reflexivity | lra].
+    + assert (Hlast : last (l1 :: r) l0 = last r l1).
+      { destruct r as [|a r']; [reflexivity|].
+        change (last (l1 :: a :: r') l0) with (last (a :: r') l0).
+        apply last_default_irrel. }
+      rewrite Hlast in Hz.
+      destruct (IH l1 z) as (l & Hl & Hzl).
+      * exact Hc1.
+      * split; [lra|]. rewrite H01. exact Hout.
+      * exists l. split; [right; exact Hl | exact Hzl].
+Qed.
+
+Lemma index_source_total : forall l0 r z, connected (l0 :: r) ->
+  (z > l_hi l0 -> index_source (l0 :: r) z = Above) /\
+  (z < l_lo (last r l0) -> index_source (l0 :: r) z = Below) /\
+  (l_lo (last r l0) <= z <= l_hi l0 -> exists t, index_source (l0 :: r) z = FromLayer t).
+Proof.
+  intros l0 r z Hc. unfold index_source.
+  assert (Hnone_out : forall l, layer_at_depth (l0 :: r) z = Some l ->
+            l_lo (last r l0) <= z <= l_hi l0).
+  { intros l Hl. destruct (layer_at_depth_spec _ _ _ Hc Hl) as (Hin & Hcase).
+    assert (Hb : forall x, In x (l0 :: r) -> l_lo (last r l0) <= l_lo x /\ l_hi x <= l_hi l0 /\ l_lo x < l_hi x).
+    { clear - Hc. revert l0 Hc. induction r as [|l1 r IH]; intros l0 Hc x Hx.
+      - destruct Hx as [<-|[]]. simpl in Hc. simpl. lra.
+      - simpl in Hc. destruct Hc as (H0 & H01 & Hc1).
+        assert (Hlast : last (l1 :: r) l0 = last r l1).
+        { destruct r as [|a r']; [reflexivity|].
+          change (last (l1 :: a :: r') l0) with (last (a :: r') l0). apply last_default_irrel. }
+        rewrite Hlast.
+        destruct Hx as [<-|Hx].
+        + assert (In l1 (l1 :: r)) by (left; reflexivity).
+          destruct (IH l1 Hc1 l1 H) as (? & ? & ?). lra.
+        + destruct (IH l1 Hc1 x Hx) as (? & ? & ?). assert (l_lo l1 < l_hi l1) by (simpl in Hc1; tauto). lra. }
+    destruct (Hb l Hin) as (Hb1 & Hb2 & Hb3).
+    destruct Hcase as [Hz|[Hz _]]; lra. }
+  repeat split.
+  - intros Hz. destruct (layer_at_depth (l0 :: r) z) as [l|] eqn:E.
+    + specialize (Hnone_out l eq_refl). lra.
+    + destruct (Rgtb z (l_hi l0)) eqn:E2; [reflexivity|]. apply Rgtb_false in E2. lra.
+  - intros Hz. destruct (layer_at_depth (l0 :: r) z) as [l|] eqn:E.
+    + specialize (Hnone_out l eq_refl). lra.
+    + assert (l_lo l0 < l_hi l0) by (simpl in Hc; tauto).
+      assert (l_lo (last r l0) <= l_lo l0).
+      { clear - Hc. revert l0 Hc. induction r as [|l1 r IH]; intros l0 Hc; [simpl; lra|].
+        simpl in Hc. destruct Hc as (H0 & H01 & Hc1).
+        assert (Hlast : last (l1 :: r) l0 = last r l1).
+        { destruct r as [|a r']; [reflexivity|].
+          change (last (l1 :: a :: r') l0) with (last (a :: r') l0). apply last_default_irrel. }
+        rewrite Hlast. specialize (IH l1 Hc1). assert (l_lo l1 < l_hi l1) by (simpl in Hc1; tauto). lra. }
+      destruct (Rgtb z (l_hi l0)) eqn:E2; [apply Rgtb_true in E2; lra|].
+      destruct (Rleb z (l_lo (last r l0))) eqn:E3; [reflexivity|]. apply Rleb_false in E3. lra.
+  - intros Hz. destruct (Req_dec (l_lo (last r l0)) z) as [Heq|Hne].
+    + (* exactly the bottom edge: the last layer is taken unless an upper one already matched *)
+      unfold layer_at_depth. destruct (find_layer (l0 :: r) z) as [l|]; [eexists; reflexivity|].
+      destruct (Reqb (l_lo (last r l0)) z) eqn:E; [eexists; reflexivity|].
+      unfold Reqb in E. destruct (Req_EM_T (l_lo (last r l0)) z); [discriminate | contradiction].
+    + destruct (connected_cover r l0 z Hc) as (l & Hl & Hzl); [lra|].
+      destruct (layer_at_depth_complete (l0 :: r) z l Hl Hzl) as (l' & E). rewrite E. eexists; reflexivity.
+Qed.
